@@ -36,6 +36,15 @@ pub broadcast proof fn lemma_shl1(x: u128)
     assert(x < 0x8000_0000_0000_0000_0000_0000_0000_0000u128 ==> (x << 1) == vstd::prelude::mul(2, x)) by (bit_vector);
 }
 
+/// the VALUE of the parity bit of a signed integer (two's complement): `x & 1` is 0 for even x and 1 for odd x
+/// of either sign, so every spelling of a parity test (`x % 2 != 0`, `x & 1 == 1`, `x & 1 != 0`) means the same
+pub broadcast proof fn lemma_i128_parity_bit(x: i128)
+    ensures #[trigger] (x & 1) == (if (x as int) % 2 == 0 { 0i128 } else { 1i128 })
+{
+    assert(x & 1 == 0i128 || x & 1 == 1i128) by (bit_vector);
+    assert((x & 1 == 0i128) <==> (x % 2i128 == 0i128)) by (bit_vector);
+}
+
 /// the value q*d + r with 0 <= r < d has floor q, remainder r, and is positive iff q >= 0 (for r > 0)
 pub proof fn lemma_floor_form(q: int, r: int, d: int)
     requires d > 0, 0 <= r < d
